@@ -134,8 +134,7 @@ theorem post3_sorted (t : USV α) : (post3 t).S 0 ≥ (post3 t).S 1 ∧ (post3 t
   have ha := abs_nonneg (t.S 0)
   have hb := abs_nonneg (t.S 1)
   have hc := abs_nonneg (t.S 2)
-  simp only [post3, bubble_S, signFix_S]
-  norm_num
+  simp only [post3, bubble_S, signFix_S, Nat.reduceAdd, reduceIte, OfNat.ofNat_ne_zero, OfNat.zero_ne_ofNat, OfNat.ofNat_ne_one, OfNat.one_ne_ofNat, one_ne_zero, zero_ne_one]
   set a := |t.S 0|
   set b := |t.S 1|
   set c := |t.S 2|
